@@ -416,3 +416,131 @@ package syncer
 //@   loop 2:
 //@     invariant pinned_once: (slotKnown ==> slot == pinned && pinned >= 0) && (!slotKnown ==> pinned == 0 - 1) && keysSeen >= 0
 //@     invariant known_after_first_key: rangeindex#2 >= 0 ==> slotKnown
+
+// ---- bidirectional replay: the frontier coordinator (C14) ---------------------------------
+//   savedFrontierSeq  the unit sequence number of the frontier last stored on the target
+//   savedFrontierOk   true once a frontier has been stored by this coordinator
+//@ func collections.CompactMap.Set
+//@   inline
+//@ func collections.CompactMap.Get
+//@   inline
+//@ func collections.CompactMap.Delete
+//@   inline
+//@ func collections.CompactMap.Len
+//@   inline
+//@ func collections.CompactMap.MaybeCompact
+//@   trusted rebuilds the backing map with the same entries (unverified here)
+//@   modifies m.data, m.peak
+//@   ensures same_entries: m.data != nil && (forall k int64 :: haskey(m.data, k) == old(haskey(m.data, k)) && m.data[k] == old(m.data[k]))
+
+//@ func checkpoint.SaveBisyncFrontierSnapshot(cli, key, frontier) (err)
+//@   trusted abstract target: one HSET of the frontier hash
+//@   ghost var savedFrontierSeq mathint = 0
+//@   ghost var savedFrontierOk bool = false
+//@   modifies savedFrontierSeq, savedFrontierOk
+//@   ensures stored: frontier != nil && err == nil ==> savedFrontierOk && savedFrontierSeq == frontier.UnitSeq
+//@   ensures kept_on_error: err != nil ==> savedFrontierOk == old(savedFrontierOk) && savedFrontierSeq == old(savedFrontierSeq)
+
+//@ func checkpoint.DeleteBisyncCommitKeys(cli, keys) (err)
+//@   trusted abstract target: DEL of the listed journal keys
+
+//@ func checkpoint.IsBisyncCommitKey(key) (r)
+//@   trusted pure string predicate
+//@   modifies nothing
+//@ func checkpoint.BisyncCommitIndexKey(cp, tag) (r)
+//@   trusted pure string function
+//@   modifies nothing
+//@ func checkpoint.BisyncSlotTag(slot) (r)
+//@   trusted pure string function
+//@   modifies nothing
+//@ func time.Now() (t)
+//@   trusted clock
+//@   modifies nothing
+//@ func time.Since(t) (d)
+//@   trusted clock
+//@   modifies nothing
+
+//@ pred fcWF(fc *bisyncFrontierCoordinator): fc != nil && fc.pending != nil && fc.pending.data != nil
+//@+   && (forall k int64 :: haskey(fc.pending.data, k) ==> fc.pending.data[k] != nil && fc.pending.data[k].UnitSeq == k)
+//@+   && (forall i int :: 0 <= i && i < len(fc.advanced) ==> fc.advanced[i] != nil && fc.advanced[i].UnitSeq <= fc.frontier.UnitSeq)
+
+//@ func bisyncFrontierCoordinator.flush
+//@   arith int
+//@   properties C14
+//@   replay syncer_frontierCoordinator
+//@   requires wf: fcWF(fc)
+//@   modifies fc.advanced, fc.lastFlush, savedFrontierSeq, savedFrontierOk, bLen, bFirst, bLast, bCpPuts, bCp, bCpPos, tCpHigh, cpArmed
+//@   assert at call DeleteBisyncCommitKeys: frontier_saved_before_journal_delete: savedFrontierOk && savedFrontierSeq == fc.frontier.UnitSeq
+//@   assert at call DeleteBisyncCommitKeys: only_journals_behind_saved_frontier_deleted: forall j int :: 0 <= j && j < len(keys) ==> (exists i int :: 0 <= i && i < len(advanced) && advanced[i].Key == keys[j] && advanced[i].UnitSeq <= savedFrontierSeq)
+//@   ensures wf: fcWF(fc)
+//@   ensures frontier_untouched: fc.frontier.UnitSeq == old(fc.frontier.UnitSeq) && fc.frontier.Offset == old(fc.frontier.Offset)
+//@   ensures error_keeps_journals_queued: result != nil ==> len(fc.advanced) == old(len(fc.advanced))
+//@   loop 1:
+//@     invariant queue_taken: len(fc.advanced) == 0
+//@     invariant scratch_is_local: fresh(keys) && indexMembers != nil && fresh(indexMembers) && (forall k string :: haskey(indexMembers, k) ==> fresh(indexMembers[k]))
+//@     invariant saved: savedFrontierOk && savedFrontierSeq == fc.frontier.UnitSeq
+//@     invariant frontier_untouched: fc.frontier.UnitSeq == old(fc.frontier.UnitSeq) && fc.frontier.Offset == old(fc.frontier.Offset)
+//@     invariant advanced_behind: forall i int :: 0 <= i && i < len(advanced) ==> advanced[i] != nil && advanced[i].UnitSeq <= savedFrontierSeq
+//@     invariant keys_from_advanced: forall j int :: 0 <= j && j < len(keys) ==> (exists i int :: 0 <= i && i < len(advanced) && advanced[i].Key == keys[j])
+//@   loop 2:
+//@     invariant stable: len(fc.advanced) == 0 && fc.frontier.UnitSeq == old(fc.frontier.UnitSeq) && fc.frontier.Offset == old(fc.frontier.Offset)
+//@     invariant only_index_removals_queued: bCpPuts == 0 && (bLen == 0 || (bFirst == "zrem" && bLast == "zrem"))
+
+//@ func bisyncFrontierCoordinator.onCommitted
+//@   arith int
+//@   properties C14
+//@   replay syncer_frontierCoordinator
+//@   requires wf: fcWF(fc)
+//@   requires record: record != nil
+//@   modifies heap, savedFrontierSeq, savedFrontierOk, bLen, bFirst, bLast, bCpPuts, bCp, bCpPos, tCpHigh, cpArmed
+//@   ensures wf: fcWF(fc)
+//@   ensures frontier_never_backwards: fc.frontier.UnitSeq >= old(fc.frontier.UnitSeq)
+//@   ensures frontier_crosses_only_committed_seqs: forall s int64 :: old(fc.frontier.UnitSeq) < s && s <= fc.frontier.UnitSeq ==> s == old(record.UnitSeq) || old(haskey(fc.pending.data, s))
+//@   ensures frontier_stops_at_first_gap: !haskey(fc.pending.data, fc.frontier.UnitSeq + 1)
+//@   loop 1:
+//@     invariant wf: fcWF(fc) && nextSeq == fc.frontier.UnitSeq + 1 && fc.frontier.UnitSeq >= old(fc.frontier.UnitSeq)
+//@     invariant advanced_behind: forall i int :: 0 <= i && i < len(advanced) ==> advanced[i] != nil && advanced[i].UnitSeq <= fc.frontier.UnitSeq
+//@     invariant crossed: forall s int64 :: old(fc.frontier.UnitSeq) < s && s <= fc.frontier.UnitSeq ==> s == old(record.UnitSeq) || old(haskey(fc.pending.data, s))
+//@     invariant pending_only_shrinks: forall k int64 :: haskey(fc.pending.data, k) ==> k == old(record.UnitSeq) || old(haskey(fc.pending.data, k))
+
+//@ func collections.NewCompactMap
+//@   inline
+//@ func collections.normalizeCompactMapOptions
+//@   inline
+//@ func newBisyncFrontierCoordinator
+//@   arith int
+//@   properties C14
+//@   modifies nothing
+//@   ensures wf: fresh(result) && fcWF(result)
+//@   ensures starts_at_recovered_frontier: result.frontier.UnitSeq == seq && result.frontier.Offset == offset && len(result.advanced) == 0
+//@   ensures nothing_pending: forall k int64 :: !haskey(result.pending.data, k)
+
+// ---- bidirectional replay: start-up recovery (C14) ---------------------------------------
+//   savedFrontierSeq is also what LoadBisyncFrontierSnapshot reads back (0 when nothing is stored
+//   for the current run ids)
+//@ func checkpoint.LoadBisyncFrontierSnapshot(cli, key, runIDs) (snapshot, err)
+//@   trusted abstract target: one HGETALL of the frontier hash
+//@   ensures reads_stored_frontier: err == nil && snapshot != nil ==> fresh(snapshot) && snapshot.UnitSeq == savedFrontierSeq
+//@   ensures nothing_stored: err == nil && snapshot == nil ==> savedFrontierSeq == 0
+
+//@ func checkpoint.LoadBisyncCommitRecords(cli, checkpointName, slots, runIDs, minSeq) (records, err)
+//@   trusted abstract target: reads the surviving journal records
+
+//@ func RedisOutput.cleanupRecoveredBisyncCommitRecords
+//@   arith int
+//@   properties C14
+//@   replay syncer_bisyncStartPoint
+//@   requires rebuilt_frontier_is_stored_before_its_journals_go: frontier != nil && frontier.UnitSeq > 0 && len(records) > 0 ==> savedFrontierSeq >= frontier.UnitSeq
+//@   modifies bLen, bFirst, bLast, bCpPuts, bCp, bCpPos, tCpHigh, cpArmed
+//@   assert at call DeleteBisyncCommitKeys: only_journals_behind_saved_frontier_deleted: forall j int :: 0 <= j && j < len(keys) ==> (exists i int :: 0 <= i && i < len(records) && records[i] != nil && records[i].Key == keys[j] && records[i].UnitSeq <= savedFrontierSeq)
+//@   loop 1:
+//@     invariant scratch_is_local: fresh(keys) && indexMembers != nil && fresh(indexMembers) && seen != nil && fresh(seen) && (forall k string :: haskey(indexMembers, k) ==> fresh(indexMembers[k]))
+//@     invariant keys_from_records_behind_frontier: forall j int :: 0 <= j && j < len(keys) ==> (exists i int :: 0 <= i && i < len(records) && records[i] != nil && records[i].Key == keys[j] && records[i].UnitSeq <= frontier.UnitSeq)
+//@   loop 2:
+//@     invariant only_index_removals_queued: bCpPuts == 0 && (bLen == 0 || (bFirst == "zrem" && bLast == "zrem"))
+
+//@ func RedisOutput.bisyncStartPoint
+//@   arith int
+//@   properties C14
+//@   replay syncer_bisyncStartPoint
+//@   modifies heap, savedFrontierSeq, savedFrontierOk, bLen, bFirst, bLast, bCpPuts, bCp, bCpPos, tCpHigh, cpArmed, startSeq, startPinned, curDb, cpDb
